@@ -74,8 +74,16 @@ QPow(a, e) == IF e >= 0 THEN QPowNat(a, e) ELSE QDiv(QOne, QPowNat(a, -e))   \* 
 
 QStr(a) == ToString(a[1]) \o "/" \o ToString(a[2])
 
+(* floor of a rational, as an integer-valued rational *)
+QFloor(a) == QI(IF a[1] >= 0 THEN a[1] \div a[2] ELSE -((-a[1] + a[2] - 1) \div a[2]))
+
 (* Output formatting only: decimal scientific notation with `digits'       *)
 (* significant digits.  Implemented in the override; the fallback prints   *)
 (* the exact fraction, which the harness also accepts.                     *)
 QSci(a, digits) == QStr(a)
+
+(* Output formatting only: fixed-point decimal with p fractional digits, rounding half to even (what     *)
+(* `{:.p}` prints for a value that is exactly representable).  Override only; the fallback prints the    *)
+(* exact fraction.                                                                                       *)
+QFix(a, p) == QStr(a)
 =============================================================================
